@@ -53,6 +53,29 @@ def _py_slice_indices(self, length, _slice=slice, _ValueError=ValueError, _TypeE
 
 register_patch(slice.indices, _py_slice_indices)
 
+# 3. Formatting a symbolic int/bool (f-strings in error messages such as
+#    f'duplicate key append attempted: {value}') makes CrossHair REALISE the value, which turns an
+#    unbounded symbolic label into an endless enumeration of concrete labels.  Per the guidance
+#    ("formatting and logging get empty bodies unless formatting is the subject") symbolic ints and
+#    bools format as the placeholder '<sym>'; everything else formats as before.
+import crosshair.core as _chcore
+from crosshair.libimpl.builtinslib import SymbolicInt as _SymInt, SymbolicBool as _SymBool
+from crosshair.tracers import NoTracing as _NoTracing
+
+_orig_format = _chcore._PATCH_REGISTRATIONS.get(format)
+
+
+def _format_no_realize(obj, format_spec='', _orig=_orig_format, _NT=_NoTracing, _types=(_SymInt, _SymBool), _type=type, _isinstance=isinstance):
+    with _NT():
+        sym = _isinstance(obj, _types)
+    if sym:
+        return '<sym>'
+    return _orig(obj, format_spec)
+
+
+if _orig_format is not None:
+    _chcore._PATCH_REGISTRATIONS[format] = _format_no_realize
+
 _orig_fork = StateSpace.smt_fork
 _orig_choose = StateSpace.choose_possible
 
